@@ -306,7 +306,7 @@ func runC12(e *Engine, g G, o RunOpt) RunInfo {
 		if lt.Harness {
 			continue
 		}
-		e.Violate("C12", "goroutine-left:"+siteOf(lt), "library goroutine %s still alive after the loss (%s)\n%s", lt.Name, lt.Header, clip(lt.Stack, 1500))
+		e.Violate("C12", "goroutine-left:"+siteOf(lt), "library goroutine %s still alive after the loss\n%s\n%s", lt.Name, lt.Header, clip(lt.Stack, 1500))
 	}
 	return info
 }
@@ -486,7 +486,7 @@ func runC12TLS(e *Engine, g G, sc *c12Scenario) RunInfo {
 		if lt.Harness {
 			continue
 		}
-		e.Violate("C12", "goroutine-left:"+siteOf(lt), "library goroutine %s still alive after the loss (%s)\n%s", lt.Name, lt.Header, clip(lt.Stack, 1500))
+		e.Violate("C12", "goroutine-left:"+siteOf(lt), "library goroutine %s still alive after the loss\n%s\n%s", lt.Name, lt.Header, clip(lt.Stack, 1500))
 	}
 	return info
 }
